@@ -15,7 +15,10 @@ RULE = ('real TransmissionModel (compact and inflated atmospheres: top at 0.01..
         '(layers, contribution multiset, regime, method) with at least one column neither transparent nor saturated')
 ASSUMPTIONS = ['3-D line/sphere geometry (taurex/util/geometry.py): modelled step by step (Geometry.lean), proved equal to '
                'the closed-form chord differences (path3d_eq_chordNew); model.path_length is compared with both (rel '
-               '1e-9 + 1e-11 of the total chord); NaN of sqrt(negative discriminant) + np.isfinite = the test 0 <= delta',
+               '1e-9 + 1e-11 of the total chord); NaN of sqrt(negative discriminant) + np.isfinite = the test 0 <= delta '
+               '(source tie: C01Src.src_planet_paths proves the regenerated geometry.py / BasePlanet.compute_path_length equal '
+               'to Geometry.pathRow3d with exactly this instantiation of np.isfinite as hypothesis; the body of the '
+               'planet-crossing branch of compute_intersection_3d is abstract there, its test is not)',
                'numba kernels contribute_tau/contribute_cia and np.sum/np.exp behave as documented; rounding not '
                'modelled: tau compared to 1e-9 relative (transmittance to 1e-9*(1+tau))',
                'contribution sigma_xsec arrays are taken from the real prepared contributions (their construction is '
@@ -28,6 +31,7 @@ ASSUMPTIONS = ['3-D line/sphere geometry (taurex/util/geometry.py): modelled ste
 _TM = 'taurex/model/transmission.py'
 _CT = 'taurex/contributions/contribution.py'
 _CIA = 'taurex/contributions/cia.py'
+_GEO = 'taurex/util/geometry.py'
 _KERNEL = dict(startK='nat', endK='nat', density_offset='nat', sigma='arr2', density='arr', path='arr', nlayers='skip',
                ngrid='nat', layer='nat', tau='arr2')
 _TM_ATTRS = {'self._planet.fullRadius': ('rp', 's'), 'self._star.radius': ('rs', 's'), 'self.nLayers': ('nL', 'nat'),
@@ -88,6 +92,40 @@ SRC_SPECS = [
                                      kw={'path_length': 'arr'}, mutates='tau')},
          ignore_stores=['self.path_length'],
          returns=['arr', 'arr2']),
+    # ---- the 3-D line/sphere geometry behind `new_path_method=True` (model: TaurexModel/Geometry.lean).  Arrays of vectors
+    # are `(3, nR)` (one column per line of sight), heights `(nH,)`.  `assume`: the value of a parameter the translation is
+    # specialised to (the value every caller passes / the default); `static`: tests decided by the calling pattern (numpy
+    # arrays are passed, cartesian coordinates).  `np.nan` / `np.isfinite` are not notions of the carrier: parameters `nan`,
+    # `isfinite` (the tie states the instantiation: a sphere's distance is finite exactly when its discriminant is >= 0).
+    dict(module=_GEO, func='normalize', lean='normalize', dialect='shaped', params=dict(v='arr2', axis='skip'),
+         assume={'axis': 0}, dims={'v': ['3', 'nR']}, returns='arr2', ret_dims=['3', 'nR']),
+    dict(module=_GEO, func='compute_line_3d', lean='compute_line_3d', dialect='shaped',
+         params=dict(v='arr2', t='arr2', axis='skip'), assume={'axis': 0}, dims={'v': ['3', 'nR'], 't': ['3', 'nR']},
+         returns=['arr2', 'arr2'], ret_dims=[['3', 'nR'], ['3', 'nR']]),
+    dict(module=_GEO, func='multi_dot', lean='multi_dot', dialect='shaped', params=dict(a='arr2', b='arr2'),
+         dims={'a': ['3', 'nR'], 'b': ['3', 'nR']}, returns='arr', ret_dims=['nR']),
+    # compute_intersection_3d: everything but the body of the "planet crossing" branch, which is an abstract function
+    # `crossing` of the variables it reads (its TEST is translated; the model and the theorems are for rays that do not cross
+    # the planet, where the branch is not entered)
+    dict(module=_GEO, func='compute_intersection_3d', lean='compute_intersection_3d', dialect='shaped',
+         params=dict(R='s', h='arr', u='arr2', o='arr2', c='skip', allow_single='skip'), assume={'allow_single': False},
+         dims={'h': ['nH'], 'u': ['3', 'nR'], 'o': ['3', 'nR']},
+         static={"hasattr(h, '__len__')": True, 'len(u.shape) == 1': False},
+         ignore_stmts=['tang = np.where(filt)[0]'], opaque_if={'filt.sum() > 0': 'crossing'},
+         returns='optarr4', ret_dims=['2', '3', 'nH', 'nR']),
+    dict(module=_GEO, func='compute_path_length_3d', lean='compute_path_length_3d', dialect='shaped',
+         params=dict(R='s', altitudes='arr', viewer='arr2', tangent='arr2', coordinates='skip'),
+         assume={'coordinates': 'cartesian'}, dims={'altitudes': ['nH'], 'viewer': ['3', 'nR'], 'tangent': ['3', 'nR']},
+         static={"hasattr(altitudes, '__len__')": True, 'isinstance(coordinates, (list, tuple))': False,
+                 "coordinates[0] in 'spherical'": False, "coordinates[1] in 'spherical'": False,
+                 'len(_viewer.shape) == 1': False},
+         ignore_stmts=['coordinates = [coordinates, coordinates]', 'good_indices = np.where(layer_filt)[0]'],
+         tuple_appends={'all_distances': ['skip', 'larr']}, returns='optlarrlist'),
+    dict(module='taurex/data/planet.py', cls='BasePlanet', func='compute_path_length', lean='planet_compute_path_length',
+         callname='self.planet.compute_path_length__3d', dialect='shaped',
+         params=dict(altitudes='arr', viewer='arr2', tangent='arr2', vector_coord_sys='skip'),
+         assume={'vector_coord_sys': 'cartesian'}, attrs={'self.fullRadius': ('rp', 's')},
+         dims={'altitudes': ['nH'], 'viewer': ['3', 'nR'], 'tangent': ['3', 'nR']}, returns='optlarrlist'),
 ]
 
 E10 = math.exp(-10.0)
